@@ -11,7 +11,9 @@ RULE = ('(a) EXHAUSTIVE decision table on real items: item state(4) x run mode(4
         'effects[eid].status is compared with the model (whose resolver is proved equal to the documented decision '
         'on the whole finite domain); (b) histories dominated by state and effect-mode changes (55%), incl. charges '
         'following their container, source switches and unloaded items; non-trivial = at least one '
-        'AttrsValueChanged or EffectApplied delivered')
+        'AttrsValueChanged or EffectApplied delivered; message_histogram.OpOutsideRunningHyp / OpOutsideFlatHyp '
+        'count the generated calls outside the hypotheses of the two every-history theorems (directly held items / '
+        'charges and autocharges in flat worlds); for those calls the correspondence alone stands')
 
 CATS = [0, 1, 2, 4, 5, 7]
 
